@@ -93,7 +93,11 @@ def native_search():
                 if scenario not in ("connect-fails", "body-raises"):
                     await asyncio.sleep(0.15)  # a detached writer would overwrite the final save by now
                     with open(path) as f:
-                        saved = json.load(f)
+                        text = f.read()
+                    try:
+                        saved = json.loads(text)
+                    except ValueError:
+                        return f"{scenario}: the file left behind is not the final registry (unparseable: {text[:80]!r})"
                     if "7" not in saved:
                         return f"{scenario}: final registry not saved ({saved})"
                 return None
